@@ -8,6 +8,7 @@ mod c08;
 mod c11;
 mod c12;
 mod c18;
+mod c18v1;
 mod c19;
 mod c20;
 mod cborx;
@@ -37,6 +38,7 @@ fn main() {
         "c11-replay" => c11::main(rest),
         "c12-replay" => c12::main(rest),
         "c18-replay" => c18::main(rest),
+        "c18v1-replay" => c18v1::main(rest),
         "c19-replay" => c19::main(rest),
         "c20-replay" => c20::main(rest),
         "builder-replay" => builder::main(rest),
